@@ -68,6 +68,21 @@ class Taint:
                     if not t["dest"]["p"]:
                         self.t.add((fid, t["dest"]["l"]))
                         self.sources.append((f, bb))
+        # any integer produced from the text of a header value (whatever parser is used): calls with an integer-carrying
+        # result whose arguments derive from `Header.value`
+        for fid, f in self.fns.items():
+            for bb, t in f.calls():
+                if t["dest"]["p"] or not self.intish(f, t["dest"]["l"]) or (fid, t["dest"]["l"]) in self.t:
+                    continue
+                if re.search(r"::(len|count|capacity|position|find|rfind)$", call_name(t)):
+                    continue
+                for a in t["args"]:
+                    o = f.origin(a)
+                    if any(x[0] == "field" and x[2] == "value" for x in origin_walk(o)) and any(
+                            x[0] == "call" and re.search(r"(as_str|bytes|chars|as_bytes|deref)$", x[1]) for x in origin_walk(o)):
+                        self.t.add((fid, t["dest"]["l"]))
+                        self.sources.append((f, bb))
+                        break
         changed = True
         rounds = 0
         while changed and rounds < 50:
